@@ -58,7 +58,7 @@ def lib():
     return _lib
 
 
-MODE_COUNT, MODE_CRASH, MODE_ERRNO = 0, 1, 2
+MODE_COUNT, MODE_CRASH, MODE_ERRNO, MODE_COUNT_READS, MODE_READ_ERRNO = 0, 1, 2, 3, 4
 ERRNOS = dict(ENOSPC=errno_mod.ENOSPC, EACCES=errno_mod.EACCES, EIO=errno_mod.EIO, EROFS=errno_mod.EROFS)
 
 
